@@ -69,7 +69,7 @@ func otherOp(t *rapid.T, kind string) string {
 
 // c09Inject draws a valid model, applies exactly one injection and returns the renderer input.
 func c09Inject(t *rapid.T) (c09Input, bool) {
-	m := gen.DSLModel(t, gen.DSLOpts{Rich: true, Conditions: true, MultiLine: false, MaxTypes: 4, MaxRels: 4})
+	m := gen.DSLModel(t, gen.DSLOpts{Rich: true, Conditions: true, MultiLine: false, MaxTypes: 4, MaxRels: 4, Scale: true})
 	in := c09Input{Model: m}
 	kind := rapid.SampledFrom(injectionKinds).Draw(t, "injKind")
 	inj := injection{Kind: kind}
